@@ -293,6 +293,16 @@ func (r *TransitionResponse) ensureValid(expectedCount int) error {
 		return errors.New("nil transition response")
 	}
 
+	// If an error is set, then the transition wasn't performed, so make sure
+	// that no results or problems were provided. In this case there's nothing
+	// else to validate (in particular, the result count won't match).
+	if r.Error != "" {
+		if len(r.Results) > 0 || len(r.Problems) > 0 {
+			return errors.New("results/problems present on error")
+		}
+		return nil
+	}
+
 	// Ensure that the number of results matches the number expected.
 	if len(r.Results) != expectedCount {
 		return errors.New("unexpected number of results returned")
